@@ -165,8 +165,10 @@ def asmRow (memo : List Char) : Option DisIsa4004.Row := DisIsa4004.instTable.fi
 def hi (w : Nat) : Nat := w / 256 % 256
 
 /-- the decoder an instruction name is registered with, applied to parsed operands at program counter `pc` for
-`cpu` (0 = 4004, 1 = 4040); `none` = an error is reported, nothing is emitted.  A label operand arrives as its value. -/
-def encode (cpu pc : Nat) (memo : List Char) (args : List Arg) : Option (List Nat) :=
+`cpu` (0 = 4004, 1 = 4040); `none` = an error is reported, nothing is emitted.  A label operand arrives as its value;
+`fpu` = `mFirstPassUnknownOrQuestionable(Flags)` of the address operand (a forward label in the first pass, whose value is then
+the program counter): `ChkSamePage` (ISZ) and the page test of `DecodeJCN` (since its repair) do not judge such a value. -/
+def encodeF (fpu : Bool) (cpu pc : Nat) (memo : List Char) (args : List Arg) : Option (List Nat) :=
   match asmRow memo with
   | none => none
   | some r =>
@@ -178,10 +180,15 @@ def encode (cpu pc : Nat) (memo : List Char) (args : List Arg) : Option (List Na
     | .imm4, [.num v] => if v < 16 then some [v + r.code % 256] else none
     | .fullJmp, [.addr v] => if v < 4096 then some [0x40 + r.code * 16 + hi v, v % 256] else none
     | .isz, [.reg n, .addr v] =>
-      if n < 16 ∧ v < 4096 ∧ (pc + 1) / 256 = v / 256 then some [0x70 + n, v % 256] else none
+      -- `ChkSamePage(EProgCounter() + 2, Adr, 8, Flags)`
+      if n < 16 ∧ v < 4096 ∧ ((pc + 2) / 256 = v / 256 ∨ fpu = true) then some [0x70 + n, v % 256] else none
     | .jcn, [.cond m, .addr v] =>
-      if m < 16 ∧ v < 4096 ∧ hi (pc + 2) = hi v then some [16 + m, v % 256] else none
+      -- `!mFirstPassUnknownOrQuestionable(Flags) && (Hi(EProgCounter() + 2) != Hi(AdrInt))` is the error case
+      if m < 16 ∧ v < 4096 ∧ (fpu = true ∨ hi (pc + 2) = hi v) then some [16 + m, v % 256] else none
     | .fim, [.rreg p, .num v] => if p < 8 ∧ v < 256 then some [32 + 2 * p, v % 256] else none
     | _, _ => none
+
+/-- the final pass: every symbol has its value, no flag is set -/
+def encode (cpu pc : Nat) (memo : List Char) (args : List Arg) : Option (List Nat) := encodeF false cpu pc memo args
 
 end AslModel.Dis.I4004
